@@ -219,7 +219,7 @@ func (g *Gen) tplLineProbes() []L.Stmt {
 			// running statement (never a host function's name)
 			bad := []L.Expr{
 				call(name("pcall"), field(name("string"), "rep")),
-				call(name("pcall"), name("pcall"), name("setmetatable"), num(1), num(2)),
+				call(name("pcall"), name("pcall"), field(name("string"), "rep")),
 				call(name("pcall"), field(name("string"), "gsub"), str("abc"), str("b"), field(name("string"), "rep")),
 				call(name("xpcall"), field(name("string"), "rep"), fn([]string{"m"}, false, blk(ret(name("m"))))),
 				call(name("pcall"), field(name("table"), "concat"), tbl(pos(tbl()))),
